@@ -6,7 +6,7 @@ From TLV Require Import Base.Shape Base.PyList Base.Tensor Base.BigSum Base.Ops 
   Proofs.FactorizedProofs Proofs.FactorizedProofs2 Proofs.FactorizedProofs3 Proofs.FactorizedProofs4
   Proofs.FactorizedProofs5 Proofs.FactorizedProofs6 Proofs.FactorizedProofs7 Proofs.FactorizedProofs8
   Proofs.FactorizedProofs9 Proofs.FactorizedProofs10 Proofs.FactorizedProofs11 Proofs.FactorizedProofs12 Proofs.FactorizedProofs13 Proofs.FactorizedProofs14
-  Proofs.BaseProofs6 Proofs.FactorizedProofs15 Proofs.FactorizedProofs16 Proofs.FactorizedProofs17 Proofs.FactorizedProofs18.
+  Proofs.BaseProofs6 Proofs.FactorizedProofs15 Proofs.FactorizedProofs16 Proofs.FactorizedProofs17 Proofs.FactorizedProofs18 Proofs.FactorizedProofs19 Proofs.FactorizedProofs20.
 Import ListNotations.
 
 Definition is_ring {F : Type} (Op : fops F) : Prop :=
@@ -536,7 +536,7 @@ Theorem C03_views_of_entries_unfold : forall (F : Type) (d : F) vec unf shp E,
      exists u, unf m = Ok u /\ shape u = [nth m shp 0; prod (remove_nth m shp)] /\
        forall idx, inb shp idx -> get d u [nth m idx 0; ravel (remove_nth m shp) (remove_nth m idx)] = E idx) /\
   (forall m, length shp <= m -> unf m = Err).
-Proof. intros; reflexivity. Qed.
+Proof. exact views_of_entries_unfold. Qed.
 Print Assumptions C03_views_of_entries_unfold.
 
 Theorem C03_tt_views : forall (F : Type) (Op : fops F), is_ring Op ->
@@ -649,6 +649,11 @@ Theorem C03_tt_first_boundary_refuted :
 Proof. exact tt_first_boundary_refuted. Qed.
 Print Assumptions C03_tt_first_boundary_refuted.
 
+Theorem C03_tr_swapped_last_refuted :
+  validate_tr bc_tr = Err /\ exists t, tr_to_tensor Zops bc_tr = Ok t /\ shape t = [2; 3].
+Proof. exact tr_swapped_last_refuted. Qed.
+Print Assumptions C03_tr_swapped_last_refuted.
+
 (* the restricted statements that do hold: a genuine mismatch (neither side of size 1) is refused by the einsum routes as well *)
 Theorem C03_tucker_einsum_mismatch_rejected_partial : forall (F : Type) (Op : fops F) (core M : tensor F) (Ms : list (tensor F)) (c : nat) (cs' : list nat),
   shape core = c :: cs' -> ndim M = 2 -> ncols M <> c -> ncols M <> 1 -> c <> 1 ->
@@ -660,3 +665,82 @@ Theorem C03_ttm_einsum_mismatch_rejected_partial : forall (F : Type) (Op : fops 
   ttm_to_tensor_einsum Op (G1 :: G2 :: rest) = Err.
 Proof. exact ttm_einsum_mismatch_rejected_partial. Qed.
 Print Assumptions C03_ttm_einsum_mismatch_rejected_partial.
+
+(* ------------------------------------------------------------------ the reconstruction functions themselves, core routes *)
+(* "structurally invalid factor sets are rejected rather than silently reconstructed", for the reconstruction FUNCTIONS (which
+   never call a validator), no hypothesis on the operands, any carrier, no ring axiom:
+   tucker_to_tensor (core backend: unfold / dot / fold per mode) returns a tensor ONLY IF every factor that is not skipped is a
+   matrix whose column count is the size of its core mode (tk_fits); so a factor that does not fit makes it raise *)
+Theorem C03_tucker_core_ok_fits : forall (F : Type) (Op : fops F) (skip : option nat) (Ms : list (tensor F)) (k : nat) (T t : tensor F),
+  multi_mode_dot_from Op k T Ms skip false = Ok t -> tk_fits F k skip Ms (shape T).
+Proof. exact tucker_core_ok_fits. Qed.
+Print Assumptions C03_tucker_core_ok_fits.
+Theorem C03_tk_fits_unfold : forall (F : Type) (k : nat) (skip : option nat) (M : tensor F) (Ms : list (tensor F)) (cs : list nat),
+  (tk_fits F k skip [] cs <-> True) /\
+  (tk_fits F k skip (M :: Ms) cs <->
+   (if ein_skipped skip k then True else ndim M = 2 /\ k < length cs /\ ncols M = nth k cs 0) /\ tk_fits F (S k) skip Ms cs).
+Proof. exact tk_fits_unfold. Qed.
+Print Assumptions C03_tk_fits_unfold.
+Theorem C03_tucker_core_misfit_rejected : forall (F : Type) (Op : fops F) (core : tensor F) (fs : list (tensor F)) (skip : option nat),
+  ~ tk_fits F 0 skip fs (shape core) -> tucker_to_tensor Op core fs skip false = Err.
+Proof. exact tucker_core_misfit_rejected. Qed.
+Print Assumptions C03_tucker_core_misfit_rejected.
+Theorem C03_validated_tucker_fits : forall (F : Type) (core : tensor F) (fs : list (tensor F)) (shp rk : list nat),
+  validate_tucker core fs = Ok (shp, rk) -> tk_fits F 0 None fs (shape core).
+Proof. exact validated_tucker_fits. Qed.
+Print Assumptions C03_validated_tucker_fits.
+Example C03_tucker_misfit_example :
+  ~ tk_fits Z 0 None [mk [2; 3] [1; 2; 3; 4; 5; 6]%Z; mk [2; 2] [1; 2; 3; 4]%Z] [1; 2] /\
+  tk_fits Z 0 None [mk [2; 1] [1; 2]%Z; mk [2; 2] [1; 2; 3; 4]%Z] [1; 2].
+Proof. exact tucker_misfit_example. Qed.
+
+(* tt_matrix_to_tensor (core backend: tensordot chain, interleaved reshape, transposition) returns a tensor ONLY for what
+   _validate_tt_matrix accepts (4-D cores with positive in / out sizes): the converse of C03_ttm_validated *)
+Theorem C03_ttm_core_ok_validated : forall (F : Type) (Op : fops F) (cs : list (tensor F)) (t : tensor F) (ds : list (nat * nat * nat * nat)),
+  ttm_to_tensor Op cs = Ok t -> all_shape4 cs = Ok ds -> 0 < prod (flat_map (fun x => [d4b x; d4c x]) ds) ->
+  validate_ttm cs = Ok (map d4b ds ++ map d4c ds, map d4a ds ++ [1]).
+Proof. exact ttm_core_ok_validated. Qed.
+Print Assumptions C03_ttm_core_ok_validated.
+Example C03_ttm_core_ok_hyps :
+  let cs := [mk [1; 2; 1; 2] [1; 2; 3; 4]%Z; mk [2; 1; 3; 1] [1; 0; 2; -1; 1; 1]%Z] in
+  (exists t, ttm_to_tensor Zops cs = Ok t) /\ all_shape4 cs = Ok [(1, 2, 1, 2); (2, 1, 3, 1)] /\
+  0 < prod (flat_map (fun x => [d4b x; d4c x]) [(1, 2, 1, 2); (2, 1, 3, 1)]).
+Proof. cbv zeta. split; [eexists; vm_compute; reflexivity | split; [reflexivity | cbv; lia]]. Qed.
+
+(* tt_to_tensor: the restricted statement that holds next to C03_tt_first_boundary_refuted -- when the first boundary rank IS 1 (and the
+   mode sizes are positive) tt_to_tensor returns a tensor only for what _validate_tt_tensor accepts: a wrong inner rank or a wrong last
+   boundary rank always makes it raise *)
+Theorem C03_tt_ok_validated_partial : forall (F : Type) (Op : fops F) (cs : list (tensor F)) (t : tensor F) (ds : list (nat * nat * nat)),
+  tt_to_tensor Op cs = Ok t -> all_shape3 cs = Ok ds -> d3a (hd (0, 0, 0) ds) = 1 -> 0 < prod (map d3b ds) ->
+  validate_tt cs = Ok (map d3b ds, map d3a ds ++ [1]).
+Proof. exact tt_ok_validated_partial. Qed.
+Print Assumptions C03_tt_ok_validated_partial.
+Example C03_tt_ok_hyps :
+  let cs := [mk [1; 2; 2] [1; 2; 3; 4]%Z; mk [2; 3; 1] [1; 0; 2; -1; 1; 1]%Z] in
+  (exists t, tt_to_tensor Zops cs = Ok t) /\ all_shape3 cs = Ok [(1, 2, 2); (2, 3, 1)] /\ d3a (hd (0, 0, 0) [(1, 2, 2); (2, 3, 1)]) = 1 /\
+  0 < prod (map d3b [(1, 2, 2); (2, 3, 1)]).
+Proof. cbv zeta. split; [eexists; vm_compute; reflexivity | repeat split; cbv; lia]. Qed.
+
+(* ------------------------------------------------------------------ cp_to_unfolded with a negative mode *)
+(* cp_to_unfolded_neg w fs k models cp_to_unfolded(cp, mode=-k) as the code behaves.  Order 1: -1 is mode 0 and every other negative
+   mode is rejected (the code has an explicit branch); order >= 2: a mode below -N is rejected *)
+Theorem C03_cp_unfolded_neg_order1 : forall (F : Type) (Op : fops F) (w : option (tensor F)) (fs : list (tensor F)) (n R : nat),
+  validate_cp w fs = Ok ([n], R) ->
+  cp_to_unfolded_neg Op w fs 1 = cp_to_unfolded Op w fs 0 /\ forall k, k <> 1 -> cp_to_unfolded_neg Op w fs k = Err.
+Proof. exact cp_unfolded_neg_order1. Qed.
+Print Assumptions C03_cp_unfolded_neg_order1.
+Theorem C03_cp_unfolded_neg_out_of_range : forall (F : Type) (Op : fops F) (w : option (tensor F)) (fs : list (tensor F)) (shp : list nat) (R k : nat),
+  validate_cp w fs = Ok (shp, R) -> length shp <> 1 -> length fs < k -> cp_to_unfolded_neg Op w fs k = Err.
+Proof. exact cp_unfolded_neg_out_of_range. Qed.
+Print Assumptions C03_cp_unfolded_neg_out_of_range.
+(* genuine defect (known finding): for order >= 2 and -N <= mode < 0 the code picks factor N + mode but khatri_rao(skip_matrix=mode) skips
+   nothing -- cp_to_unfolded(cp, -1) of a 2 x 3 tensor is a 3 x 6 matrix, not the mode-1 unfolding (3 x 2); the restricted statement that
+   holds is C03_cp_to_unfolded (modes 0 <= m < N) together with the two theorems above *)
+Theorem C03_cp_unfolded_negative_mode_refuted :
+  validate_cp None nm_fs = Ok ([2; 3], 2) /\
+  cp_to_unfolded Zops None nm_fs 1 = Ok (mk [3; 2] [1; 3; 0; 2; 3; 7]%Z) /\
+  cp_to_unfolded_neg Zops None nm_fs 1 = Ok (mk [3; 6] [1; 2; 1; 3; 6; 3; 2; 6; 0; 6; 16; 2; 1; 0; 3; 3; 2; 7]%Z).
+Proof. exact cp_unfolded_negative_mode_refuted. Qed.
+Print Assumptions C03_cp_unfolded_negative_mode_refuted.
+Example C03_cp_unfolded_neg_order1_hyps : validate_cp (Some wW) [wA] = Ok ([3], 2).
+Proof. reflexivity. Qed.
